@@ -339,9 +339,10 @@ func genC11(g *core.Gen) {
 	}
 	// payloads around the frame limit
 	type bw struct{ n, seq int }
-	bigs := []bw{{M - 1, 0}, {M, 255}, {M + 1, 7}}
+	// 2M is in the quick tier too: a writer that forgets the empty terminator only after the
+	// *second* full frame (seeded change C11-1) is invisible at M
+	bigs := []bw{{M - 1, 0}, {M, 255}, {M + 1, 7}, {2 * M, 254}}
 	if g.Tier != "quick" {
-		bigs = append(bigs, bw{2 * M, 254})
 		// each run takes about half of the remaining ones (the thorough tier runs three seeds)
 		for _, b := range []bw{{M - 2, 3}, {M, 0}, {2*M + 1, 1}, {2*M - 1, 255}, {2 * M, 0}, {3 * M, 253}, {3*M + 1, 254},
 			{M + g.Intn(M), g.Intn(256)}, {2*M + g.Intn(M), g.Intn(256)}} {
